@@ -45,7 +45,13 @@ type c13Case struct {
 	WriterStep int   // concurrent writer acts during this step's first WriteConfig (-1 = never)
 	WriterB    bool  // which log the concurrent writer follows
 	WriterSize int64 // head size it writes
+	More       []writer `json:",omitempty"` // further writers: the k'th of them acts during the (k+1)'th WriteConfig of that step (each on a head of its own)
 	Extra      int   `json:",omitempty"` // index into sw.ExtraLines: further lines in every tree head
+}
+
+type writer struct {
+	B    bool
+	Size int64
 }
 
 func genCase(t *rapid.T) c13Case {
@@ -163,6 +169,33 @@ func genCase(t *rapid.T) c13Case {
 		c.WriterStep = rapid.IntRange(0, ns-1).Draw(t, "writerstep")
 		c.WriterB = rapid.Bool().Draw(t, "writerb")
 		c.WriterSize = sizeOn(c.WriterB, "writersize")
+		if gen.Chance(t, 25, "morewriters") {
+			// a busy shared configuration: the client loses several writes in a row, to heads that mostly lie on the log it
+			// follows and grow, the last one perhaps on the other log
+			st := c.Steps[c.WriterStep]
+			n := []int{1, 2, 3, 4, 5, 6, 9}[gen.Uniform(t, 7, "nmore")]
+			top := c.NA
+			if st.LogB {
+				top = c.NB
+			}
+			c.WriterB = st.LogB
+			c.WriterSize = 1 + c.P/2
+			size := c.WriterSize
+			for k := 0; k < n; k++ {
+				if size < top {
+					size += rapid.Int64Range(0, 2).Draw(t, "moregrow")
+					if size > top {
+						size = top
+					}
+				}
+				wr := writer{B: st.LogB, Size: size}
+				if k == n-1 && rapid.Bool().Draw(t, "morelastfork") {
+					wr.B = !st.LogB
+					wr.Size = sizeOn(wr.B, "moreforksize")
+				}
+				c.More = append(c.More, wr)
+			}
+		}
 	}
 	return c
 }
@@ -190,6 +223,14 @@ func okCase(c c13Case) bool {
 	}
 	for _, f := range c.Faults {
 		if f.Ord < 0 || f.Occ < 0 || f.Ord2 < 0 || f.Size < 0 {
+			return false
+		}
+	}
+	if len(c.More) > 12 || len(c.More) > 0 && c.WriterStep < 0 {
+		return false
+	}
+	for _, wr := range c.More {
+		if wr.Size < 1 || wr.Size > lim(wr.B) {
 			return false
 		}
 	}
@@ -242,13 +283,16 @@ func run(c c13Case, w *sw.World, faults []sw.Fault, req map[string][]string) (*s
 		ops.Srv = sw.Server{Log: logOf(w, s.LogB), Size: s.Size}
 		ops.Interfere = nil
 		if i == c.WriterStep {
-			done := false
+			k := 0
 			ops.Interfere = func(file string, cur []byte) []byte {
-				if done || file != w.Name+"/latest" {
+				if k > len(c.More) || file != w.Name+"/latest" {
 					return nil
 				}
-				done = true
-				return w.Head(logOf(w, c.WriterB), c.WriterSize)
+				k++
+				if k == 1 {
+					return w.Head(logOf(w, c.WriterB), c.WriterSize)
+				}
+				return w.Head(logOf(w, c.More[k-2].B), c.More[k-2].Size)
 			}
 		}
 		mv := sw.ModVer{Path: "missing.example.com/nothing", Version: "v1.0.0"}
@@ -320,6 +364,9 @@ func check(c c13Case) pbt.Result {
 	}
 	if c.WriterStep >= 0 {
 		addHead(w.Head(logOf(w, c.WriterB), c.WriterSize))
+		for _, wr := range c.More {
+			addHead(w.Head(logOf(w, wr.B), wr.Size))
+		}
 	}
 
 	// 1. writes: signed, genuine, monotone, prefix-extending; cache content authentic
@@ -470,6 +517,38 @@ func check(c c13Case) pbt.Result {
 		r.Classes = append(r.Classes, "accepted head compared with the stored head")
 		if len(x.cfg) == 0 || !prefixOf(h, cfg) {
 			r.Fail = pbt.Failf("accepted-head-not-stored", "lookup %d of %s@%s succeeded on a head of size %d (in A:%v B:%v), and when it returned the stored head was of size %d (in A:%v B:%v), which does not contain it; no configuration operation of this client had failed", x.step, x.path, x.vers, h.n, h.inA, h.inB, cfg.n, cfg.inA, cfg.inB)
+			return r
+		}
+	}
+
+	// 2d. A lookup that lost a configuration write does not return successfully before it has looked at what won:
+	// the last configuration operation of a successful lookup is never a lost write. (The winner may be a fork.)
+	for xi, x := range res {
+		if x.err != nil {
+			continue
+		}
+		end := len(events)
+		if xi+1 < len(res) {
+			end = res[xi+1].mark
+		}
+		lastLost := false
+		nlost := 0
+		for _, e := range events[x.mark:end] {
+			switch {
+			case e.Op == "writeconfig":
+				lastLost = e.Err
+				if e.Err {
+					nlost++
+				}
+			case e.Op == "config" && strings.HasSuffix(e.Name, "/latest"):
+				lastLost = false
+			}
+		}
+		if nlost > 0 {
+			r.Classes = append(r.Classes, fmt.Sprintf("lookup succeeded after losing %d configuration writes", nlost))
+		}
+		if lastLost {
+			r.Fail = pbt.Failf("returned-after-lost-write", "lookup %d of %s@%s returned successfully right after losing a configuration write (%d lost in this lookup), without reading the value that won", x.step, x.path, x.vers, nlost)
 			return r
 		}
 	}
